@@ -10,51 +10,51 @@ Local Open Scope Z_scope.
 
 (* Lossless: the lines are the input words in order; line 0 verbatim, the head of every
    later line passed through escape_word when in Markdown mode, nothing else changed. *)
-Theorem C05_wrap_lossless : forall ws width c0 c1 md,
+Theorem C05_wrap_lossless : forall esc ws width c0 c1 md,
   exists Lo, concat Lo = ws /\ Forall (fun l => l <> []) Lo /\
-             wrap_words ws width c0 c1 md = esc_lines md true Lo.
+             wrap_words esc ws width c0 c1 md = esc_lines esc md true Lo.
 Proof. exact wrap_lossless. Qed.
 Print Assumptions C05_wrap_lossless.
 
-Theorem C05_wrap_lossless_plain : forall ws width c0 c1,
-  concat (wrap_words ws width c0 c1 false) = ws.
+Theorem C05_wrap_lossless_plain : forall esc ws width c0 c1,
+  concat (wrap_words esc ws width c0 c1 false) = ws.
 Proof. exact wrap_lossless_plain. Qed.
 Print Assumptions C05_wrap_lossless_plain.
 
-Theorem C05_wrap_no_empty_line : forall ws width c0 c1 md,
-  Forall (fun l => l <> []) (wrap_words ws width c0 c1 md).
+Theorem C05_wrap_no_empty_line : forall esc ws width c0 c1 md,
+  Forall (fun l => l <> []) (wrap_words esc ws width c0 c1 md).
 Proof. exact wrap_no_empty_line. Qed.
 Print Assumptions C05_wrap_no_empty_line.
 
 (* Width bound: line 0 starts at column c0 (initial column), every later line at c1
    (subsequent offset); a line exceeds the width only if it is a single word. *)
-Theorem C05_wrap_width : forall ws width c0 c1 md i l,
-  nth_error (wrap_words ws width c0 c1 md) i = Some l ->
+Theorem C05_wrap_width : forall esc ws width c0 c1 md i l,
+  nth_error (wrap_words esc ws width c0 c1 md) i = Some l ->
   col_at c1 c0 i + llen l <= width \/ length l = 1%nat.
 Proof. exact wrap_width. Qed.
 Print Assumptions C05_wrap_width.
 
-Theorem C05_wrap_maximal : forall ws width c0 c1 md,
-  exists Lo, concat Lo = ws /\ wrap_words ws width c0 c1 md = esc_lines md true Lo /\
+Theorem C05_wrap_maximal : forall esc ws width c0 c1 md,
+  exists Lo, concat Lo = ws /\ wrap_words esc ws width c0 c1 md = esc_lines esc md true Lo /\
     forall i l h t,
-      nth_error (wrap_words ws width c0 c1 md) i = Some l ->
+      nth_error (wrap_words esc ws width c0 c1 md) i = Some l ->
       nth_error Lo (S i) = Some (h :: t) ->
       width < col_at c1 c0 i + llen l + 1 + wlen h.
 Proof. exact wrap_maximal. Qed.
 Print Assumptions C05_wrap_maximal.
 
 (* The extracted checker accepts every output of the model ... *)
-Theorem C05_wrap_checker_accepts_model : forall width c0 c1 md ws,
-  wrap_ok ws width c0 c1 md (wrap_words ws width c0 c1 md) = true.
+Theorem C05_wrap_checker_accepts_model : forall esc width c0 c1 md ws,
+  wrap_ok esc ws width c0 c1 md (wrap_words esc ws width c0 c1 md) = true.
 Proof. exact wrap_words_ok. Qed.
 Print Assumptions C05_wrap_checker_accepts_model.
 
 (* ... and whatever it accepts (in particular an implementation output) is lossless,
    width-bounded and maximal. *)
-Theorem C05_wrap_checker_sound : forall width c1 md L first scol ws,
-  chk_lines width c1 md first scol L ws = true ->
+Theorem C05_wrap_checker_sound : forall esc width c1 md L first scol ws,
+  chk_lines esc width c1 md first scol L ws = true ->
   exists Lo,
-    concat Lo = ws /\ L = esc_lines md first Lo /\ Forall (fun l => l <> []) Lo /\
+    concat Lo = ws /\ L = esc_lines esc md first Lo /\ Forall (fun l => l <> []) Lo /\
     (forall i l, nth_error L i = Some l ->
        col_at c1 scol i + llen l <= width \/ length l = 1%nat) /\
     (forall i l h t, nth_error L i = Some l -> nth_error Lo (S i) = Some (h :: t) ->
@@ -63,15 +63,15 @@ Proof. exact chk_sound. Qed.
 Print Assumptions C05_wrap_checker_sound.
 
 (* String level, plain text, width > 0: re-reading the lines gives exactly the words. *)
-Theorem C05_wrap_text_lossless_plain : forall text width c0 c1, 0 < width ->
-  concat (map split_ws (wrap_paragraph_lines split_ws text width c0 c1 true true false))
+Theorem C05_wrap_text_lossless_plain : forall esc text width c0 c1, 0 < width ->
+  concat (map split_ws (wrap_paragraph_lines esc split_ws text width c0 c1 true true false))
   = split_ws text.
 Proof. exact wrap_text_lossless_plain. Qed.
 Print Assumptions C05_wrap_text_lossless_plain.
 
 (* width <= 0: one line per paragraph with the same words. *)
-Theorem C05_wrap_nowrap : forall splitter text width c0 c1 md, width <= 0 ->
-  let out := wrap_paragraph_lines splitter text width c0 c1 true true md in
+Theorem C05_wrap_nowrap : forall esc splitter text width c0 c1 md, width <= 0 ->
+  let out := wrap_paragraph_lines esc splitter text width c0 c1 true true md in
   (length out <= 1)%nat /\ concat (map split_ws out) = split_ws text /\
   (out = [] <-> split_ws text = []).
 Proof. exact wrap_nowrap. Qed.
